@@ -7,7 +7,7 @@ import (
 )
 
 // C12 (statement level) and C11 (precedence): source-level harnesses through the real lexer,
-// parser, checker (bytecode.VCheckStatements shim = what generateSetTransform/Pattern run) and VM.
+// parser, checker (through GenerateBytecode, i.e. what Compile decides) and VM.
 
 const (
 	tErr = iota
@@ -183,13 +183,11 @@ func VerifC12Stmt(job int, twin int) {
 	env := map[string]int{"match": tString, "matchLength": tNumber}
 	want := ref.stmts(stmts, env, false)
 	vAssume(!ref.retyped)
-	got := bytecode.VCheckStatements(stmts, predicate)
+	// what Compile decides (the public behaviour; no internal entry point of the checker is named here)
 	_, gerr := bytecode.GenerateBytecode(a)
+	got := gerr == nil
 	if twin != 0 {
 		vFail("TWIN reached the comparison")
-	}
-	if got != (gerr == nil) {
-		vFail("C12: Compile does not report what the checker decided")
 	}
 	if got != want {
 		if want {
@@ -315,11 +313,13 @@ var c12PairSecond = []string{"return %", "set v to % return %", "if % then retur
 
 func VerifC12PairCount() int { return len(c12PairFirst) * len(c12PairSecond) }
 
-func c12Fill(sk string) string {
+func c12Fill(sk string) string { return c12FillFrom(sk, c12PairExprs) }
+
+func c12FillFrom(sk string, menu []string) string {
 	body := ""
 	for i := 0; i < len(sk); i++ {
 		if sk[i] == '%' {
-			body += c12PairExprs[vPick("expr", len(c12PairExprs))]
+			body += menu[vPick("expr", len(menu))]
 		} else {
 			body += string(sk[i])
 		}
